@@ -508,6 +508,38 @@ func c17(c *Ctx) {
 		}
 	}
 	c.handledOnlyByReconnect("R17.M")
+	// "returns an error if X is not configured": the data centre looked up in the table is the number the server
+	// named, as parsed - not its absolute value, not a default, not a neighbour
+	if f := c.fn("R17.M", load.RootMod, "*MTProto", "tryToProcessErr"); f != nil {
+		n := 0
+		for _, b := range f.Blocks {
+			for _, in := range b.Instrs {
+				lk, ok := in.(*ssa.Lookup)
+				if !ok {
+					continue
+				}
+				ld, ok := lk.X.(*ssa.UnOp)
+				if !ok {
+					continue
+				}
+				fa, ok := ld.X.(*ssa.FieldAddr)
+				if !ok || !strings.HasSuffix(an.FieldName(fa.X.Type(), fa.Field), "MTProto.dclist") {
+					continue
+				}
+				n++
+				exact := false
+				if ex, ok := lk.Index.(*ssa.Extract); ok && ex.Index == 0 {
+					if ta, ok := ex.Tuple.(*ssa.TypeAssert); ok && strings.Contains(an.NewTracer().OriginString(ta.X), "ErrResponseCode.AdditionalInfo") {
+						exact = true
+					}
+				}
+				r.Check(exact, "R17.M", sprintf("lookup:the-number-the-server-named#%d", n), c.pos(lk.Pos()), "the key of the data-centre lookup is "+lk.Index.String()+" (must be the asserted AdditionalInfo itself)")
+			}
+		}
+		if n == 0 {
+			r.Undecide("R17.M", "lookup:the-number-the-server-named", c.pos(f.Pos()), "no lookup in MTProto.dclist found in tryToProcessErr")
+		}
+	}
 	// "the address configured for data centre X" is the configuration of THIS client: the table a client looks X
 	// up in is a map made for it, not one it shares with every other client of the process (SetDCList writes
 	// into the table in place)
